@@ -294,7 +294,7 @@ fn replay(args: &Args) -> i32 {
         }
     };
     alloc::set_limit(args.u64("mem-limit-mb", 1024) << 20);
-    start_watchdog(args.u64("run-timeout-s", 20));
+    start_watchdog(args.u64("run-timeout-s", 120));
     watchdog_mark_start();
     let mut ctx = engines::Ctx::new(args);
     let engine = v["engine"].as_str().unwrap_or("").to_string();
